@@ -232,7 +232,9 @@ def gen_case(rng, root_user, big=False):
         e["loc"] = loc
         e.update(attrs(e["kind"]))
         if e["kind"] == "dev":
-            e.setdefault("mode", 0o640)
+            # mknod would create the node WITH a set-uid bit and the following lchown clears it (kernel
+            # semantics not modelled in Fs.v); every other kind gets such bits only from the final chmod
+            e["mode"] = e.get("mode", 0o640) & 0o777
         ents[loc] = e
     # hard-link groups: clone a file entry under other names with the same key
     files = [e for e in ents.values() if e["kind"] == "file"]
